@@ -31,9 +31,12 @@ example : ([⟨0, 0, 0⟩, ⟨255, 255, 255⟩, ⟨0, 0, 0⟩, ⟨10, 200, 30⟩
 /-- Quantising a non-empty image with a requested size `k ≥ 1` never panics, never hangs, never
     answers `None`, and the palette has between 1 and `max k 8` colours — although `prune` leaves the
     root summary stale when it drops a root-level leaf (so the palette may come out far smaller than
-    requested, but never empty).  Without dithering the outcome is always `ok`. -/
+    requested, but never empty).  Without dithering the outcome is always `ok`; with dithering the
+    model answers `ok` in the zero-error case and `inexact` (same palette) otherwise — the index
+    image of a general dithered run is the subject of `C13_indices`.  (`_hacc`: the domain on which
+    the `usize` accumulators of the code cannot overflow; the model accumulates in `Nat`.) -/
 theorem C13_palette_bounds (px : List RGB) (h w k : Nat) (dither : Bool)
-    (hsize : px.length = h * w) (hne : px ≠ []) (hk : 1 ≤ k) :
+    (hsize : px.length = h * w) (hne : px ≠ []) (hk : 1 ≤ k) (_hacc : 255 * (h * w) < 2 ^ 64) :
     ∃ pal, ((∃ is, quantize px h w k dither = .ok pal is) ∨
             (dither = true ∧ quantize px h w k dither = .inexact pal)) ∧
       1 ≤ pal.length ∧ pal.length ≤ max k 8 := by
@@ -51,65 +54,54 @@ theorem C13_palette_bounds (px : List RGB) (h w k : Nat) (dither : Bool)
 
 /-- a 2×3 image with five distinct colours, requested size 2 -/
 example : ([⟨1, 2, 3⟩, ⟨1, 2, 3⟩, ⟨200, 0, 0⟩, ⟨0, 200, 0⟩, ⟨0, 0, 200⟩, ⟨9, 9, 9⟩] : List RGB).length = 2 * 3
-    ∧ ([⟨1, 2, 3⟩, ⟨1, 2, 3⟩, ⟨200, 0, 0⟩, ⟨0, 200, 0⟩, ⟨0, 0, 200⟩, ⟨9, 9, 9⟩] : List RGB) ≠ [] ∧ 1 ≤ 2 := by
-  simp
+    ∧ ([⟨1, 2, 3⟩, ⟨1, 2, 3⟩, ⟨200, 0, 0⟩, ⟨0, 200, 0⟩, ⟨0, 0, 200⟩, ⟨9, 9, 9⟩] : List RGB) ≠ [] ∧ 1 ≤ 2
+    ∧ 255 * (2 * 3) < 2 ^ 64 := by
+  refine ⟨rfl, by simp, by omega, by norm_num⟩
 
-/-- The index image has one entry per pixel, every entry refers to a palette colour, and without
-    dithering that colour is at minimal distance from the pixel among all palette colours; with
-    dithering (modelled zero-error case) it is the pixel's colour itself. -/
-theorem C13_indices (px : List RGB) (h w k : Nat) (dither : Bool) (pal : List RGB) (is : List Nat)
-    (hsize : px.length = h * w) (hk : 1 ≤ k)
-    (hq : quantize px h w k dither = .ok pal is) :
-    is.length = px.length ∧
-    ∀ p ∈ px.zip is, ∃ c, pal[p.2]? = some c ∧
-      (dither = false → ∀ c' ∈ pal, dist p.1 c ≤ dist p.1 c') ∧ (dither = true → c = p.1) := by
-  by_cases hne : px = []
-  · subst hne
-    simp [quantize, fromImage] at hq
-  obtain ⟨pal', hfi, h1, _⟩ := SurfProofs.QuantTop.fromImage_bounds px h w k hsize hne hk
-  have hpne : pal' ≠ [] := by rintro rfl; simp at h1
-  cases dither with
-  | false =>
-    obtain ⟨is', hq', hlen, hall⟩ := SurfProofs.QuantTop.quantizePlain_spec pal' hpne px
-    simp only [quantize, hfi, hq'] at hq
-    simp only [Bool.false_eq_true, if_false, QRes.ok.injEq] at hq
-    obtain ⟨rfl, rfl⟩ := hq
-    refine ⟨hlen, fun p hp => ?_⟩
-    obtain ⟨c, hc, hmin⟩ := hall p hp
-    exact ⟨c, hc, ⟨fun _ => hmin, fun hd => (by cases hd)⟩⟩
-  | true =>
-    rcases SurfProofs.QuantTop.quantizeDither_spec pal' hpne px with hq' | ⟨is', hq', hlen, hall⟩
-    · simp only [quantize, hfi, hq'] at hq
-      simp at hq
-    · simp only [quantize, hfi, hq'] at hq
-      simp only [if_true, QRes.ok.injEq] at hq
-      obtain ⟨rfl, rfl⟩ := hq
-      refine ⟨hlen, fun p hp => ?_⟩
-      exact ⟨p.1, hall p hp, ⟨fun hd => (by cases hd), fun _ => rfl⟩⟩
+/-- Index image, both settings.  For every non-empty image and every `k ≥ 1`:
+    * without dithering the run ends `ok` with one index per pixel, every index refers to a palette
+      colour, and that colour is at minimal distance from the pixel among all palette colours;
+    * with dithering — whatever colours the error diffusion hands to the lookup (`looked`, arbitrary,
+      one per pixel) — the run ends `ok` with one index per pixel and every index refers to a palette
+      colour.
+    (`_hacc`: the domain on which the `usize` accumulators of the code cannot overflow; the model
+    accumulates in `Nat`.) -/
+theorem C13_indices (px : List RGB) (h w k : Nat)
+    (hsize : px.length = h * w) (hne : px ≠ []) (hk : 1 ≤ k) (_hacc : 255 * (h * w) < 2 ^ 64) :
+    (∃ pal is, quantize px h w k false = .ok pal is ∧ is.length = px.length ∧
+      ∀ p ∈ px.zip is, ∃ c, pal[p.2]? = some c ∧ ∀ c' ∈ pal, dist p.1 c ≤ dist p.1 c') ∧
+    (∀ looked : List RGB, looked.length = px.length →
+      ∃ pal is, quantizeDithered px h w k looked = .ok pal is ∧ is.length = px.length ∧
+        ∀ i ∈ is, i < pal.length) := by
+  obtain ⟨pal, hfi, h1, _⟩ := SurfProofs.QuantTop.fromImage_bounds px h w k hsize hne hk
+  have hpne : pal ≠ [] := by rintro rfl; simp at h1
+  constructor
+  · obtain ⟨is, hq, hlen, hall⟩ := SurfProofs.QuantTop.quantizePlain_spec pal hpne px
+    exact ⟨pal, is, by simp only [quantize, hfi, hq]; rfl, hlen, hall⟩
+  · intro looked hl
+    obtain ⟨is, hq, hlen, hall⟩ := SurfProofs.QuantTop.quantizePlain_valid pal hpne looked
+    exact ⟨pal, is, by simp only [quantizeDithered, quantizeLooked, hfi, hq], by rw [hlen, hl], hall⟩
 
-/-- the hypothesis `quantize … = .ok pal is` is met by every non-empty image when dithering is off
-    (here: 1×2 pixels, `k = 2`) -/
-example : ∃ pal is, quantize [⟨10, 20, 30⟩, ⟨200, 100, 0⟩] 1 2 2 false = .ok pal is := by
-  obtain ⟨pal, hq, _⟩ := C13_palette_bounds [⟨10, 20, 30⟩, ⟨200, 100, 0⟩] 1 2 2 false rfl (by simp) (by omega)
-  rcases hq with ⟨is, hq⟩ | ⟨hd, _⟩
-  · exact ⟨pal, is, hq⟩
-  · cases hd
+/-- the hypotheses are met e.g. by a 1×2 image with `k = 2` -/
+example : ([⟨10, 20, 30⟩, ⟨200, 100, 0⟩] : List RGB).length = 1 * 2 ∧
+    ([⟨10, 20, 30⟩, ⟨200, 100, 0⟩] : List RGB) ≠ [] ∧ 1 ≤ 2 ∧ 255 * (1 * 2) < 2 ^ 64 := by
+  refine ⟨rfl, by simp, by omega, by norm_num⟩
 
 /-- Lossless case.  If the image has at most `k` distinct colours (every duplicate-free list of
-    colours occurring in it has at most `k` entries), is not subsampled (`h·w < 200·k`, sizes being
-    `usize`) and its components are bytes, then nothing is pruned: the palette lists exactly the
+    colours occurring in it has at most `k` entries), is not subsampled (`h·w < 200·k`; `255·h·w < 2^64`, which also keeps the
+    `usize` accumulators from overflowing) and its components are bytes, then nothing is pruned: the palette lists exactly the
     distinct colours of the image, once each, and the index image reproduces every pixel — without
     dithering and with it (all error terms are zero). -/
 theorem C13_lossless (px : List RGB) (h w k : Nat) (dither : Bool)
     (hne : px ≠ []) (hk : 1 ≤ k)
     (hbytes : ∀ c ∈ px, c.r < 256 ∧ c.g < 256 ∧ c.b < 256)
     (hfit : ∀ S : List RGB, S.Nodup → (∀ c ∈ S, c ∈ px) → S.length ≤ k)
-    (h64 : h * w < 2 ^ 64) (hsmall : h * w < 200 * k) :
+    (hacc : 255 * (h * w) < 2 ^ 64) (hsmall : h * w < 200 * k) :
     ∃ pal is, quantize px h w k dither = .ok pal is ∧
       pal.Nodup ∧ (∀ c, c ∈ pal ↔ c ∈ px) ∧
       is.length = px.length ∧ ∀ p ∈ px.zip is, pal[p.2]? = some p.1 := by
   obtain ⟨pal, hfi, hnd, hmem⟩ :=
-    SurfProofs.QuantLossless.fromImage_lossless px h w k hne hk hbytes hfit h64 hsmall
+    SurfProofs.QuantLossless.fromImage_lossless px h w k hne hk hbytes hfit (by omega) hsmall
   have hsub : ∀ q ∈ px, q ∈ pal := fun q hq => (hmem q).mpr hq
   cases dither with
   | false =>
@@ -123,7 +115,7 @@ theorem C13_lossless (px : List RGB) (h w k : Nat) (dither : Bool)
 example :
     let px : List RGB := [⟨255, 0, 0⟩, ⟨0, 255, 0⟩, ⟨255, 0, 0⟩, ⟨1, 2, 3⟩]
     px ≠ [] ∧ (∀ c ∈ px, c.r < 256 ∧ c.g < 256 ∧ c.b < 256) ∧
-      (∀ S : List RGB, S.Nodup → (∀ c ∈ S, c ∈ px) → S.length ≤ 3) ∧ 2 * 2 < 2 ^ 64 ∧ 2 * 2 < 200 * 3 := by
+      (∀ S : List RGB, S.Nodup → (∀ c ∈ S, c ∈ px) → S.length ≤ 3) ∧ 255 * (2 * 2) < 2 ^ 64 ∧ 2 * 2 < 200 * 3 := by
   intro px
   refine ⟨by simp [px], by simp [px], ?_, by norm_num, by norm_num⟩
   intro S hS hsub
